@@ -773,3 +773,27 @@ func sk(v ssa.Value) string { return shortKey(exprKey(v)) }
 func kLen(v ssa.Value) string { return shortKey("len(" + sk(v) + ")") }
 
 func kExt(v ssa.Value, i int) string { return shortKey(sk(v) + "#" + itoa(i)) }
+
+// RelsOnEdge returns the relations that hold when control passes from pred to succ.
+func (p *Prog) RelsOnEdge(rm map[*ssa.BasicBlock]relSet, pred, succ *ssa.BasicBlock) relSet {
+	out := rm[pred].clone()
+	for _, ins := range pred.Instrs {
+		if c, ok := ins.(*ssa.Call); ok {
+			for k := range p.callPost(c, 0) {
+				out[k] = true
+			}
+		}
+	}
+	if len(pred.Instrs) > 0 {
+		if ifc, ok := pred.Instrs[len(pred.Instrs)-1].(*ssa.If); ok && pred.Succs[0] != pred.Succs[1] {
+			for i, s := range pred.Succs {
+				if s == succ {
+					if rs, ok := relOf(fact{ifc.Cond, i == 0}); ok {
+						out[rs] = true
+					}
+				}
+			}
+		}
+	}
+	return out
+}
